@@ -163,6 +163,15 @@ impl Server {
         Ok(m)
     }
 
+    /// Start a descriptor shortage of `ms` milliseconds in the server process; returns once no
+    /// descriptor can be allocated there any more.
+    pub fn fd_shortage_begin(&mut self, ms: u64) -> bool {
+        self.send(&format!("fdshort {}", ms)) && matches!(self.line(Duration::from_secs(30)), Some(l) if l.starts_with("SHORT"))
+    }
+    pub fn fd_shortage_end(&mut self) -> bool {
+        matches!(self.line(Duration::from_secs(30)), Some(l) if l == "RESTORED")
+    }
+
     pub fn stats(&mut self) -> Value {
         if !self.send("stats") {
             return Value::Null;
